@@ -68,8 +68,16 @@ U2(n) == VU(BitsOfNat(n, 2))
 Space == SetToSeq({("A" :> a) @@ ("O" :> o) @@ ("E" :> e) @@ ("EXP" :> x) :
                      a \in {U2(1), U2(2)}, o \in {VNone, VSome(U2(2))}, e \in {VLeft(U2(1)), VRight(VU(<<1>>))}, x \in {U2(1), U2(2)}})
 
-DbFamilies == {[pos |-> i] : i \in 1..6}
+\* more tracked calls in one program than one byte can number: 300 dbg! statements with pairwise different texts in
+\* front of the probed one (distinct call sites must get distinct markers whatever their number)
+Many == [defs |-> <<IdF>>, pre |-> [i \in 1..300 |-> SLet(PIgn, TU(16), Call1(CDbg, Dec(1000 + i)))], e |-> Call1(CDbg, V("a"))]
+
+DbFamilies == {[pos |-> i] : i \in 1..7}
 DbProgramsOf(f) ==
+  IF f.pos = 7
+  THEN {[items |-> ObsProgram(Many.defs, Decls, Many.pre, T2, Many.e), wdecls |-> ObsWitDecls(Decls, T2), args |-> EmptyFn,
+         space |-> SubSeq(Space, 1, 2), tag |-> "debug"]}
+  ELSE
   {LET p == Positions(t)[f.pos] IN
    [items |-> ObsProgram(p.defs, Decls, p.pre, T2, p.e), wdecls |-> ObsWitDecls(Decls, T2), args |-> EmptyFn,
     space |-> Space, tag |-> "debug"]
